@@ -246,7 +246,10 @@ def analyse(facts, entries):
             expect("set_claim(other), then set_claim(%s)" % K, seq(oth, c1), {})
             expect("set_claim(%s), set_footer" % K, seq(c1, (D.set_footer, foot)), {})
         # (acknowledged, then set_claim(exp) is refused as a duplicate by the current code - no token, nothing to state)
-        expect("acknowledged, then set_claim(K)", seq(ack, (D.set_claim, D.claim("K"))), {"rm": True})
+        for K in ("K", "iss", "sub", "aud", "nbf", "iat", "jti"):
+            # the acknowledgement stands for exp alone: every other registered claim (and a custom one) can still be set once afterwards
+            expect("acknowledged, then set_claim(%s)" % K, seq(ack, (D.set_claim, D.claim(K))), {"rm": True})
+            expect("set_claim(%s), then acknowledged" % K, seq((D.set_claim, D.claim(K)), ack), {"rm": True})
         expect("set_claim(exp), then acknowledged", seq((D.set_claim, D.claim("exp")), ack), {"rm": True})
         if und[0]:
             out[e.id] = None, und[0]
@@ -257,7 +260,7 @@ def analyse(facts, entries):
             if r2 == "C10.R4" and e.vp[1] != "Local":
                 continue
             fs.append(Finding(r2, not probs, e.id, "build contract over call sequences" if not probs else probs[0][:90], "; ".join(sorted(set(probs)))[:700], v.file(), b["line"],
-                              "%s: over 34 call sequences from default(): duplicate -> Err(Duplicate(that key)) and nothing built, also after an acknowledgement or a further claim and on a second build; "
+                              "%s: over 47 call sequences from default(): duplicate -> Err(Duplicate(that key)) and nothing built, also after an acknowledgement or a further claim and on a second build; "
                               "exp removed exactly when acknowledged, before one generic build whose result is returned" % e.label))
         out[e.id] = fs, None
     # set_claim forwarding (version independent)
